@@ -21,7 +21,8 @@ MANIFEST = dict(
          "integer division and integer `<` modelled as such; the output arrays named by their role -- data of the array objects returned as tuple "
          "items 0 / 1, or the library's array parameters; pointer parameters of helpers followed to the caller's array; consecutive counted loops "
          "over one range run as one loop when an affine dependence test shows that no pass is overtaken; file-scope constants read as their "
-         "value); the two normal forms agree when some one-to-one renaming of their loop-carried variables makes them equal; "
+         "value; an element stored on the arms of an if holds a Piecewise over the condition, compared arm by arm with the equations of the "
+         "arm's condition substituted); the two normal forms agree when some one-to-one renaming of their loop-carried variables makes them equal; "
          "(3) the normal form conforms to the textbook definitions (roles assigned to variables by the loops that carry them, not by name): initial guess cos(pi (i-1/4)/(n+1/2)), Legendre recurrence, derivative "
          "identity, Newton step, mirrored fill (index sum n-1), weight 2 xl/((1-z^2) P'^2), tolerance <= 1e-10; (4) the Python wrapper rejects "
          "npts <= 0 before the call and the parse format matches; (5) memo-key discipline of the integrator object: cached tables and their key "
@@ -31,7 +32,9 @@ MANIFEST = dict(
          "such a dictionary must store the rule of its key); any other attribute the object keeps that is computed from the tables (found by "
          "data flow over reaching definitions) is re-bound in every call before it is read, or written by setup whenever the tables are, or "
          "reused only under a comparison with the cached count / stored under a key that contains it; (6) integrator formulas (affine map "
-         "of the abscissae, weighted sum, prefactor, roles of the interpolation call) by symbolic normal forms; (7) symbolic shape and element "
+         "of the abscissae, weighted sum, prefactor, roles of the interpolation call) by symbolic normal forms, and with both arms of every test "
+         "followed: a return (or value) selected by a threshold test on the inputs must agree with the general one under the test's condition; "
+         "(7) symbolic shape and element (reshape: row-major index arithmetic) "
          "inference of the tensor-product grid for nx != ny (which weight sits at which grid point) and of the element the two-dimensional integrator "
          "sums (weights wx[p] wy[q], integrand at both mapped abscissae, prefactor), wherever the affine maps are applied; (8) value preservation on the data path: "
          "reaching definitions follow each input of the linear interpolation through array conversions to the segment search and the formula, "
@@ -937,8 +940,7 @@ class _CExec:
             self.cond_depth -= 1
             if (st_t or st_f) and (t1 or t2):
                 raise _NotModelled("element store on an arm of an if that jumps out (line %s)" % st.get("line"))
-            if st_t or st_f:
-                self.merge_arm_stores(c, st_t, st_f, st.get("line", 0))
+            joined = self.merge_arm_stores(c, st_t, st_f, st.get("line", 0)) if st_t or st_f else []
             if t1 and t2:
                 return True
             if t1:
@@ -958,6 +960,9 @@ class _CExec:
                     else:
                         merged[v] = sp.Symbol("?%s@%s" % (v, st.get("line", 0)))
                 self.env = merged
+                # what the elements stored on the arms hold after the if (each arm has already dropped what it may have overwritten)
+                for base, idx, val in joined:
+                    self.env[("elem", base, idx)] = val
             return False
         if k in ("ForStmt", "WhileStmt", "DoStmt"):
             if self.cond_depth:
@@ -1135,7 +1140,7 @@ class _CExec:
                     return v
             v = last(self.stack[-1].stores, base, idx)
             return v if v is not None else sp.Function(base)(idx)
-        done = []
+        done, out = [], []
         for base, idx, _v, ln in list(st_t) + list(st_f):
             if any(b == base and same(i, idx) for b, i in done):
                 continue
@@ -1150,6 +1155,8 @@ class _CExec:
             else:
                 val = sp.Symbol("?%s[%s]@%s" % (base, idx, line))
             self.emit_store(base, idx, val, ln)
+            out.append((base, idx, val))
+        return out
 
     def loop(self, kind, cond, inc, body, line):
         def one_pass():
@@ -1461,8 +1468,8 @@ def _pw_zero(e):
     """is the term zero for all values of its variables, where a Piecewise is read arm by arm: the value of each arm must vanish
     under the condition of that arm (the equations in it substituted) -- `x == c ? f(c) : f(x)` is f(x).  True / False, or None
     when an arm does not vanish as a term but what is left involves values computed by the routine (which the condition may pin
-    down in a way the term domain does not see): only a difference in terms of the routine's inputs alone, on an arm whose
-    condition is about the interval (x1, x2) alone, is a contradiction"""
+    down in a way the term domain does not see): only a difference of followed values on an arm whose condition is about the
+    interval (x1, x2) alone is a contradiction"""
     if not isinstance(e, sp.Basic) or not e.has(sp.Piecewise):
         return _zero(e)
     try:
@@ -1495,8 +1502,9 @@ def _pw_zero(e):
             w = sp.simplify(w)
         except Exception:
             pass
-        # a condition on the interval alone leaves the nodes (which depend on the count and the root number) arbitrary
-        if {str(x) for x in eff.free_symbols} <= set(_INPUT_NAMES[:2]) and {str(x) for x in w.free_symbols} <= set(_INPUT_NAMES) \
+        # a condition on the interval alone leaves the count and the root number, hence the node z and the derivative there, arbitrary:
+        # a difference that does not vanish as a term in them is a difference for some count
+        if {str(x) for x in eff.free_symbols} <= set(_INPUT_NAMES[:2]) and not any(str(x).startswith("?") for x in w.free_symbols) \
                 and not w.atoms(sp.core.function.AppliedUndef) and not eff.atoms(sp.core.function.AppliedUndef):
             return False
         verdict = None
@@ -3766,6 +3774,7 @@ class _ElemEval:
         self.issues, self.rules_used = issues, rules_used
         self.straight = True
         self.depth = 0
+        self.reshapes = []       # (where, text) of the reshapes that regroup elements
         self.np_local = set()
         for x in walk_no_nested(fi.node):
             if isinstance(x, ast.ImportFrom) and x.module == "numpy":
@@ -3816,7 +3825,12 @@ class _ElemEval:
         if isinstance(e, ast.Constant) and isinstance(e.value, (int, float)) and not isinstance(e.value, bool):
             return sp.nsimplify(e.value, rational=True)
         if isinstance(e, (ast.Name, ast.Attribute)):
-            return env.get(norm(e)) if not (isinstance(e, ast.Attribute) and e.attr == "T") else self.tr(self.ev(e.value))
+            if isinstance(e, ast.Attribute) and e.attr == "T":
+                return self.tr(self.ev(e.value))
+            if isinstance(e, ast.Attribute) and e.attr == "shape" and norm(e) not in env:
+                base = self.ev(e.value)
+                return tuple(base.shape) if isinstance(base, _Arr) else None
+            return env.get(norm(e))
         if isinstance(e, (ast.Tuple, ast.List)):
             vs = tuple(self.ev(x) for x in e.elts)
             return None if any(v is None for v in vs) else vs
@@ -3924,16 +3938,24 @@ class _ElemEval:
         if isinstance(e.func, ast.Attribute) and e.func.attr in ("copy", "transpose") and not e.args and not e.keywords:
             v = ev(e.func.value)
             return self.tr(v) if e.func.attr == "transpose" else v
-        if isinstance(e.func, ast.Attribute) and e.func.attr == "reshape":
-            a = ev(e.func.value)
-            args = list(e.args[0].elts) if len(e.args) == 1 and isinstance(e.args[0], ast.Tuple) else list(e.args)
-            if isinstance(a, _Arr) and len(a.shape) == 1 and len(args) == 2:
-                c = [const_value(x) for x in args]
-                if c == [1, -1]:
-                    return _Arr((1, a.shape[0]), a.elem.xreplace({_ix(0): _ix(1)}))
-                if c == [-1, 1]:
-                    return _Arr((a.shape[0], 1), a.elem)
-            return None
+        if (isinstance(e.func, ast.Attribute) and e.func.attr == "reshape" and not self.is_np(e, "reshape")) or (self.is_np(e, "reshape") and e.args):
+            if self.is_np(e, "reshape"):
+                a, rest = ev(e.args[0]), list(e.args[1:])
+            else:
+                a, rest = ev(e.func.value), list(e.args)
+            order = kwarg(e, "order")
+            if [k.arg for k in e.keywords if k.arg != "order"] or (order is not None and const_value(order) != "C") or not isinstance(a, _Arr):
+                return None
+            if len(rest) == 1:
+                t = rest[0]
+                if isinstance(t, (ast.Tuple, ast.List)):
+                    dims = [(-1 if const_value(x) == -1 else ev(x)) for x in t.elts]
+                else:
+                    v = -1 if const_value(t) == -1 else ev(t)
+                    dims = list(v) if isinstance(v, tuple) else [v]
+            else:
+                dims = [(-1 if const_value(x) == -1 else ev(x)) for x in rest]
+            return self.reshape(a, dims, e)
         # a module-level helper of the package: what its body returns for these arguments
         d = dotted_name(e.func)
         q = self.repo.resolve_name(self.fi.module, d) if d else None
@@ -3950,6 +3972,7 @@ class _ElemEval:
                 return None
             sub = _ElemEval(self.repo, f, {}, self.issues, self.rules_used)
             sub.depth = self.depth + 1
+            sub.reshapes = self.reshapes
             static = any(isinstance(d_, ast.Name) and d_.id == "staticmethod" for d_ in f.node.decorator_list)
             if method and not static:
                 me = f.params[0] if f.params else "self"
@@ -3972,6 +3995,60 @@ class _ElemEval:
                 return None
             return r
         return None
+
+    @staticmethod
+    def _divmod(t, q, bounds):
+        """(t div q, t mod q) for a term t >= 0 made of index symbols (0 <= i_k < bounds[i_k]) and axis lengths: the multiples of
+        q among the terms of t go into the quotient; what is left must be one index that is smaller than q (else floor / Mod terms)"""
+        if q == 1:
+            return t, sp.Integer(0)
+        whole, left = sp.Integer(0), sp.Integer(0)
+        for term in sp.Add.make_args(sp.expand(t)):
+            r = sp.cancel(term / q)
+            if sp.denom(r) == 1:
+                whole += r
+            else:
+                left += term
+        if left == 0:
+            return whole, sp.Integer(0)
+        if left in bounds and _zero(bounds[left] - q):
+            return whole, left
+        return sp.floor(t / q), sp.Mod(t, q)
+
+    def reshape(self, a, dims, node):
+        """a.reshape(dims): same elements in row-major order.  Equal shapes: the array itself; shapes that differ in axes of
+        length one only: the same axes under other numbers; otherwise the element at [i0, i1, ..] is the one whose row-major
+        position in the old shape is the row-major position of [i0, i1, ..] in the new one (index arithmetic with floor / Mod
+        where the axis lengths do not divide out)"""
+        if any(not (d == -1 or isinstance(d, sp.Basic)) for d in dims) or sum(1 for d in dims if d == -1) > 1:
+            return None
+        total = sp.Mul(*a.shape) if a.shape else sp.Integer(1)
+        if -1 in dims:
+            rest = sp.Mul(*[d for d in dims if d != -1])
+            free = sp.cancel(total / rest)
+            if sp.denom(free) != 1:
+                return None
+            dims = [free if d == -1 else d for d in dims]
+        if not _zero(sp.Mul(*dims) - total):
+            return None
+        old, new = tuple(a.shape), tuple(dims)
+        if len(old) == len(new) and all(_zero(x - y) for x, y in zip(old, new)):
+            return a
+        keep_old = [k for k, d in enumerate(old) if d != 1]
+        keep_new = [k for k, d in enumerate(new) if d != 1]
+        if len(keep_old) == len(keep_new) and all(_zero(old[x] - new[y]) for x, y in zip(keep_old, keep_new)):
+            sub = {_ix(k): sp.Integer(0) for k in range(len(old))}
+            sub.update({_ix(x): _ix(y) for x, y in zip(keep_old, keep_new)})
+            return _Arr(new, a.elem.xreplace(sub))
+        bounds = {_ix(k): d for k, d in enumerate(new)}
+        flat = sum((_ix(k) * sp.Mul(*new[k + 1:]) for k in range(len(new)) if new[k] != 1), sp.Integer(0))
+        sub, rem = {}, flat
+        for m in range(len(old)):
+            q, rem = self._divmod(rem, sp.Mul(*old[m + 1:]), bounds)
+            sub[_ix(m)] = q
+        self.reshapes.append((self.fi.where(node), "`%s` re-reads an array of shape %s in row-major order as shape %s (this is not a transposition)"
+                              % (norm(node)[:80], old, new)))
+        return _Arr(new, a.elem.xreplace(sub))
 
     def tr(self, v):
         if isinstance(v, _Arr) and len(v.shape) == 2:
@@ -4067,7 +4144,7 @@ def shapes(chk, repo):
                 okt = rx[0] is not ry[0] and rx[0][2] == nx and ry[0][2] == ny and sp.simplify(wg.elem - want) == 0 \
                     and {ex.args[0], ey.args[0]} == {_ix(0), _ix(1)}
         chk.ob("R17.7", "QGauss2._setup::tensor-product", okt, fi.where(), "weights are the tensor product: the weight at the grid point (x[a], y[b]) is wx[a] * wy[b] "
-               "(grid points %s, %s; weight %s)" % (ex, ey, wg.elem))
+               "(grid points %s, %s; weight %s)%s" % (ex, ey, wg.elem, "".join("; %s: %s" % r for r in it.reshapes) if not okt else ""))
     ts = tensor_sum(repo, dict(env) if straight and not issues else None, list(rules_used), nx, ny)
     f2 = repo.func(IU + "QGauss2.integrate_func")
     chk.ob("R17.7", "QGauss2.integrate_func::tensor-product-sum", ts[0], f2.where(),
